@@ -188,6 +188,7 @@ def abstract_events(ops, fs_root):
                 e = {}
             if e.get("ev") == "commit_begin":
                 cur = e["txn"]
+                ev.append({"ev": "Begin", "t": e["txn"], "ticket": o.ticket})
             elif e.get("ev") == "commit_ack":
                 ev.append({"ev": "Ack", "t": e["txn"], "sync": bool(e.get("sync")), "ticket": o.ticket})
                 cur = None
@@ -259,13 +260,10 @@ def sweep_workload(task):
                 lo = acked if model == "process" else synced
                 res = reopen(img, meta["opts"])
                 out["images"] += 1
-                if res.get("open") != "ok":
-                    n = -2
-                else:
-                    ms = [k for k in range(len(states)) if states[k] == res["scan"]]
-                    n = -1 if not ms else (max([k for k in ms if k <= started]) if any(k <= started for k in ms) else min(ms))
-                out["crash_obs"].append({"ev": "Crash", "model": "process" if model == "process" else "power", "n": n,
-                                         "ticket": o.ticket, "variant": model})
+                ok = res.get("open") == "ok"
+                ms = [k for k in range(len(states)) if states[k] == res["scan"]] if ok else []
+                out["crash_obs"].append({"ev": "Crash", "model": "process" if model == "process" else "power", "ok": ok,
+                                         "ms": ms, "ticket": o.ticket, "variant": model})
                 for prop, cls, detail in judge(res, states, lo, started):
                     v = {"prop": prop, "class": cls, "detail": detail, "ticket": o.ticket, "model": model, "lo": lo, "hi": started}
                     if len([x for x in out["violations"] if x["class"] == cls]) < 3:
@@ -469,8 +467,8 @@ def validate_traces(ctx, results):
                 ctx.violation({"driver": "crash_sweep", "saved": None, "ticket": v["ev"].get("ticket"),
                                "model": v["ev"].get("variant"), "seed": r.get("seed"), "args": r.get("args")},
                               {"class": name, "model": v["ev"].get("model")},
-                              "%s (judged by StorageTrace): recovered prefix %s at ticket %s, model %s"
-                              % (name, v["ev"].get("n"), v["ev"].get("ticket"), v["ev"].get("model")))
+                              "%s (judged by StorageTrace): recovered prefixes %s at ticket %s, model %s"
+                              % (name, v["ev"].get("ms"), v["ev"].get("ticket"), v["ev"].get("model")))
         else:
             # a mechanism rule of the model does not hold in this execution: the model no longer describes the code,
             # or the code lost a safety step; the crash observations around it decide whether a property is broken
